@@ -54,7 +54,9 @@ SCALARS = ['sum', 'sum_err', 'sum_aper_area', 'center_aper_area', 'min', 'max', 
            'gini', 'xcentroid', 'ycentroid']
 
 APERS = [('circ', (2.3,)), ('circ', (0.3,)), ('cann', (1.2, 3.1)), ('ell', (3.0, 1.2, 0.6)), ('eann', (1.0, 3.5, 2.0, 4.0 / 7.0, 2.2)),
-         ('rect', (3.2, 1.9, 0.4)), ('rann', (1.5, 4.0, 3.0, 1.125, 1.1)), ('circ', (1.0,))]
+         ('rect', (3.2, 1.9, 0.4)), ('rann', (1.5, 4.0, 3.0, 1.125, 1.1)), ('circ', (1.0,)),
+         # rotation angles in the 4th and 2nd quadrant (sin and cos of opposite sign)
+         ('rect', (4.4, 1.9, -0.6)), ('rann', (1.5, 4.0, 3.0, 1.125, 2.1))]
 
 
 def make_aperture(kind, p, positions):
@@ -169,6 +171,52 @@ def gini(x):
     for i in range(n):
         tot += (2.0 * (i + 1) - n - 1) * abs(x[i])
     return tot / (abs(np.mean(x)) * n * (n - 1)) if n > 0 else math.nan
+
+
+def centre_margin(kind, p, x0, y0, x, y):
+    """Signed margin (> 0 inside, < 0 outside; |margin| small = close to the boundary) of the pixel
+    centre (x, y) with respect to the shape of the given kind centred on (x0, y0): an analytic
+    membership test that does not go through photutils."""
+    dx, dy = x - x0, y - y0
+
+    def rot(th):
+        c, s_ = math.cos(th), math.sin(th)
+        return dx * c + dy * s_, -dx * s_ + dy * c
+
+    def ell(a, b, th):
+        u, v = rot(th)
+        return 1.0 - math.hypot(u / a, v / b)
+
+    def rect(w, h, th):
+        u, v = rot(th)
+        return min(0.5 * w - abs(u), 0.5 * h - abs(v))
+    if kind == 'circ':
+        return p[0] - math.hypot(dx, dy)
+    if kind == 'cann':
+        return min(p[1] - math.hypot(dx, dy), math.hypot(dx, dy) - p[0])
+    if kind == 'ell':
+        return ell(p[0], p[1], p[2])
+    if kind == 'eann':      # a_in, a_out, b_out, b_in, theta
+        return min(ell(p[1], p[2], p[4]), -ell(p[0], p[3], p[4]))
+    if kind == 'rect':
+        return rect(p[0], p[1], p[2])
+    if kind == 'rann':      # w_in, w_out, h_out, h_in, theta
+        return min(rect(p[1], p[2], p[4]), -rect(p[0], p[3], p[4]))
+    raise ValueError(kind)
+
+
+def analytic_centre_count(kind, p, x0, y0, data, mask, bkg):
+    """(number of unmasked finite pixels of the image whose centre lies in the shape, smallest
+    |margin| met) by a loop over the whole image."""
+    ny, nx = data.shape
+    n, closest = 0, 1.0
+    for y in range(ny):
+        for x in range(nx):
+            m = centre_margin(kind, p, x0, y0, x, y)
+            closest = min(closest, abs(m))
+            if m > 0 and not (mask is not None and mask[y, x]) and math.isfinite(float(data[y, x]) - bkg):
+                n += 1
+    return n, closest
 
 
 def oracle_position(data, err, mask, bkg, Wc, Ws, box, sid):
@@ -403,6 +451,15 @@ def eval_combo(case, counter=None):
         E, T = o['E'], o['tol']
         if counter is not None:
             counter(k, pos[k], o)
+        # the centre-method pixel set against an analytic membership test over the whole image
+        # (independent of photutils' masks and bounding boxes); skipped when a pixel centre lies
+        # within 1e-9 of the boundary
+        nin, closest = analytic_centre_count(kind, p, pos[k][0], pos[k][1], data, mask, bkgs[k])
+        if closest > 1e-9 and sid is None and not math.isnan(E['center_aper_area']) \
+                and int(E['center_aper_area']) != nin:
+            bad('center-set/differs-from-analytic-membership',
+                f'pos={pos[k]}: {int(E["center_aper_area"])} unmasked pixel centres in the centre mask, '
+                f'{nin} inside the shape by the analytic test', k)
         # bbox_* are inclusive indices of the aperture box
         gb = (int(_arr(got['bbox_xmin'])[k]), int(_arr(got['bbox_xmax'])[k]), int(_arr(got['bbox_ymin'])[k]), int(_arr(got['bbox_ymax'])[k]))
         if gb != (box[0], box[1] - 1, box[2], box[3] - 1):
